@@ -1105,8 +1105,9 @@ def compare(content, obs, fd, report, pre=''):
     for key, vars_, extra in (('nodal', content['nodal_vars'], {'NODE'}), ('elem', content['elem_vars'], set())):
         names = {v['name'] for v in vars_}
         if set(obs[key]) - extra != names:
-            rep(f'variables-differ:{key}', f'{key} variables read {sorted(obs[key])} != written {sorted(names)}',
-                {'read': sorted(obs[key]), 'written': sorted(names)})
+            got_names = sorted(repr(k) if not isinstance(k, str) else k for k in obs[key])   # a garbled read may yield non-string keys
+            rep(f'variables-differ:{key}', f'{key} variables read {got_names} != written {sorted(names)}',
+                {'read': got_names, 'written': sorted(names)})
             continue
         for v in vars_:
             want = {i: tuple(bits(x) for x in r) for i, r in zip(v['ids'], v['data'])}
